@@ -2,8 +2,16 @@
   C06 — every managed object is finalised exactly once, all memory returned by teardown.
 
   Property theorems only; lemmas are in CelloProofs/Lemmas/Life{Basic,Fin,Inv}.lean.
-  Model: Cello/Lifecycle.lean (`step`: new/new_root/new_raw, del/del_root/del_raw, collections with any marked set and any
-  slot order, stop/start, teardown; `finalise`: destructor cascades through `GC_Rem`; ledger of `fin a` / `free a`).
+  Model: Cello/Lifecycle.lean (`step`: new/new_root/new_raw, alloc/alloc_root/alloc_raw, del/del_root/del_raw,
+  dealloc(destruct(·)), collections with any marked set and any slot order, stop/start, teardown, destructors that `del`
+  what they own *and destructors that allocate* (`Op.dtor`: each `new` inside a destructor goes through `GC_Set` and may
+  run a nested collection on the same pending list); `finalise`: destructor cascades; ledger of `fin a` / `free a`).
+
+  Three regions of the history language are known findings of this tree; each is excluded from the proved theorems by an
+  explicit, decidable hypothesis and exhibited by a `…_refuted` theorem on a concrete witness:
+    F23  new/new_root, del_root while the collector is stopped       — `(ghost ops).lost = []` / no `stop`
+    KF-C06-dtor-alloc  an object whose destructor allocates            — `NoDtor ops`
+    KF-C06-dealloc-registered  `dealloc` of a registered object        — `WellFormed` (dealloc only of raw objects)
 
   Vocabulary:  `Once a log`  = the ledger has exactly one `fin a` and exactly one `free a`, the `fin` first;
                `Clean a log` = the ledger has no event of `a`;
@@ -11,8 +19,15 @@
                object and at most once.  (That the program does not `del` an object twice or `del` an object a live owner
                owns is *not* needed by the model — identities are never reused in it — but is needed for the model to
                speak about the C code, where a freed address can be handed out again: it is an assumption of the check.)
-  `WellFormed`, `final ops` (collector state after the history), `ghost ops` (program-side bookkeeping: identities
-  allocated, raw objects not yet `del_raw`ed, objects allocated while stopped) are defined in Lemmas/LifeInv.lean.
+  `WellFormed`, `NoDtor`, `final ops` (collector state after the history), `ghost ops` (program-side bookkeeping:
+  identities allocated, raw objects not yet `del_raw`ed, objects allocated while stopped) are defined in Lemmas/LifeInv.lean.
+
+  Scope.  Every theorem is about one collector.  "Teardown in main and worker threads" is the same `Op.teardown`
+  (`Cello_Exit` and `Thread_Init_Run` both end in `GC_Del`); that a `del` issued by another thread is a no-op on this
+  collector and that the object is then finalised by its own thread's teardown is `C13_foreign_del` (Props/C13.lean, a
+  different model).  The collector's own tables (`entries`, `freelist`) and the per-thread wrapper/TLS/Exception objects
+  are not in the ledger model: "all memory returned by teardown" is checked for them by the harness's block accounting
+  and ASan's leak check only.
 -/
 import CelloProofs.Lemmas.LifeInv
 import Cello.LifecycleSrc
@@ -30,9 +45,9 @@ theorem C06_current_source : sourceCfg = Cfg.current ∧ sourceShapeAsModelled =
 /-- **C06, at most once — every history, including stop/start windows.**  After any well-formed history (any
     interleaving of allocations, deletions, ownership links, collections with any marked set and any slot order, stop,
     start, teardown) every object has either no ledger event at all or exactly one `fin` followed by exactly one `free`. -/
-theorem C06_no_double (ops : List Op) (h : WellFormed ops) (a : Addr) :
+theorem C06_no_double_partial (ops : List Op) (h : WellFormed ops) (hnd : NoDtor ops) (a : Addr) :
     Clean a (final ops).log ∨ Once a (final ops).log := by
-  have hI := inv_final ops h
+  have hI := inv_final ops h hnd
   by_cases h1 : a ∈ (ghost ops).allocd
   · by_cases h2 : a ∈ (final ops).regAddrs
     · exact Or.inl (hI.reg a h2).2.2.2
@@ -44,31 +59,32 @@ theorem C06_no_double (ops : List Op) (h : WellFormed ops) (a : Addr) :
   · exact Or.inl (hI.fresh a h1)
 
 /-- the same, counted: at most one `fin`, at most one `free`, and never a `free` without its `fin` -/
-theorem C06_no_double_counts (ops : List Op) (h : WellFormed ops) (a : Addr) :
+theorem C06_no_double_counts_partial (ops : List Op) (h : WellFormed ops) (hnd : NoDtor ops) (a : Addr) :
     (final ops).log.count (Ev.fin a) ≤ 1 ∧ (final ops).log.count (Ev.free a) ≤ 1 ∧
       (final ops).log.count (Ev.free a) = (final ops).log.count (Ev.fin a) := by
-  rcases C06_no_double ops h a with hc | ho
+  rcases C06_no_double_partial ops h hnd a with hc | ho
   · have := count_eq_zero_of_clean hc; omega
   · have := ho.counts; omega
 
 /-- **the ledger only grows**: whatever follows a history extends its ledger, so "at most once at the end of every
     history" (`C06_no_double`) is "at no point a second finalise or free". -/
-theorem C06_ledger_only_grows (ops more : List Op) (h : WellFormed (ops ++ more)) :
+theorem C06_ledger_only_grows (ops more : List Op) (h : WellFormed (ops ++ more)) (hnd : NoDtor (ops ++ more)) :
     ∃ E, (final (ops ++ more)).log = (final ops).log ++ E := by
   have hw := (wf_append ops more Ghost.init St.init).1 h
-  have key : ∀ (more : List Op) (g : Ghost) (s : St), Inv g s → WF g s more →
+  have hn := NoDtor.append.1 hnd
+  have key : ∀ (more : List Op) (g : Ghost) (s : St), Inv g s → WF g s more → NoDtor more →
       ∃ E, (run Cfg.current s more).log = s.log ++ E := by
     intro more
     induction more with
-    | nil => intro g s _ _; exact ⟨[], by simp [run]⟩
+    | nil => intro g s _ _ _; exact ⟨[], by simp [run]⟩
     | cons op more ih =>
-      intro g s hI hwf
-      obtain ⟨h1, ⟨E1, hE1⟩, _⟩ := inv_step hI op hwf.1
-      obtain ⟨E2, hE2⟩ := ih _ _ h1 hwf.2
+      intro g s hI hwf hnd'
+      obtain ⟨h1, ⟨E1, hE1⟩, _⟩ := inv_step hI op hwf.1 hnd'.head
+      obtain ⟨E2, hE2⟩ := ih _ _ h1 hwf.2 hnd'.tail
       refine ⟨E1 ++ E2, ?_⟩
       show (run Cfg.current (step Cfg.current s op) more).log = _
       rw [hE2, hE1, List.append_assoc]
-  obtain ⟨E, hE⟩ := key more _ _ (inv_run ops _ _ Inv.init hw.1) hw.2
+  obtain ⟨E, hE⟩ := key more _ _ (inv_run ops _ _ Inv.init hw.1 hn.1) hw.2 hn.2
   exact ⟨E, by unfold final; rw [run_append]; exact hE⟩
 
 /-- **C06, what teardown leaves.**  After any well-formed history followed by teardown (for any slot order), every
@@ -76,12 +92,12 @@ theorem C06_ledger_only_grows (ops more : List Op) (h : WellFormed (ops ++ more)
     deleted (still registered: teardown does not sweep roots); a raw object the program never `del_raw`ed; an object
     allocated with `new`/`new_root` while the collector was stopped (known finding F23).  And teardown leaves only
     roots in the registry. -/
-theorem C06_teardown_classification (ops : List Op) (order : List Addr) (h : WellFormed ops) :
+theorem C06_teardown_classification (ops : List Op) (order : List Addr) (h : WellFormed ops) (hnd : NoDtor ops) :
     (∀ e ∈ (final (ops ++ [Op.teardown order])).reg, e.root = true ∧ e ∈ (final ops).reg) ∧
     ∀ a ∈ (ghost ops).allocd,
       Once a (final (ops ++ [Op.teardown order])).log ∨ a ∈ (final (ops ++ [Op.teardown order])).regAddrs ∨
         a ∈ (ghost ops).rawLive ∨ a ∈ (ghost ops).lost := by
-  have hI := inv_final ops h
+  have hI := inv_final ops h hnd
   have hs' : final (ops ++ [Op.teardown order]) = sweep Cfg.current (final ops) [] order := by
     unfold final; rw [run_append]; rfl
   obtain ⟨hI', D, E, he, hg, _, hsw, _⟩ := inv_sweep hI [] order
@@ -111,12 +127,12 @@ theorem C06_teardown_classification (ops : List Op) (order : List Addr) (h : Wel
     all `del_raw`ed and which leaves no root registered (the program deleted its roots), after teardown — for every slot
     order, i.e. whether an owner is swept before or after what it owns — every allocated object has exactly one `fin`
     followed by exactly one `free`, and the registry is empty. -/
-theorem C06_exactly_once_windows (ops : List Op) (order : List Addr) (h : WellFormed ops)
+theorem C06_exactly_once_windows (ops : List Op) (order : List Addr) (h : WellFormed ops) (hnd : NoDtor ops)
     (hlost : (ghost ops).lost = []) (hraw : (ghost ops).rawLive = [])
     (hroots : ∀ e ∈ (final ops).reg, e.root = false) :
     (final (ops ++ [Op.teardown order])).reg = [] ∧
     ∀ a ∈ (ghost ops).allocd, Once a (final (ops ++ [Op.teardown order])).log := by
-  obtain ⟨h1, h2⟩ := C06_teardown_classification ops order h
+  obtain ⟨h1, h2⟩ := C06_teardown_classification ops order h hnd
   have hempty : (final (ops ++ [Op.teardown order])).reg = [] := by
     apply List.eq_nil_iff_forall_not_mem.2
     intro e he
@@ -135,25 +151,29 @@ theorem C06_exactly_once_windows (ops : List Op) (order : List Addr) (h : WellFo
     without `stop`, whose raw objects the program has `del_raw`ed and whose roots it has deleted, and for every slot order
     of the teardown collection: every object any `new`/`new_root`/`new_raw` of the history created is finalised exactly
     once and then released exactly once, by a collection, an explicit `del`, its owner's destructor, or teardown. -/
-theorem C06_exactly_once (ops : List Op) (order : List Addr) (h : WellFormed ops)
+theorem C06_exactly_once (ops : List Op) (order : List Addr) (h : WellFormed ops) (hnd : NoDtor ops)
     (hrun : ∀ op ∈ ops, op ≠ Op.stop)
     (hraw : (ghost ops).rawLive = [])
     (hroots : ∀ e ∈ (final ops).reg, e.root = false)
     (a : Addr) (k : Kind) (owned marks ord : List Addr) (hnew : Op.new a k owned marks ord ∈ ops) :
     Once a (final (ops ++ [Op.teardown order])).log := by
-  have hl := (running_run ops Ghost.init St.init Inv.init h hrun rfl rfl).2
-  exact (C06_exactly_once_windows ops order h hl hraw hroots).2 a (allocd_of_new ops _ _ hnew)
+  have hl := (running_run ops Ghost.init St.init Inv.init h hnd hrun rfl rfl).2
+  exact (C06_exactly_once_windows ops order h hnd hl hraw hroots).2 a (allocd_of_new ops _ _ hnew)
 
-/-- **C06, a collection respects its marked set.**  In any state reached by a well-formed history, a collection whose
-    marked set is closed under ownership (an unmarked object owns only unmarked objects — what the mark phase produces,
-    and what makes "owned" mean "reached through the owner") appends to the ledger no event of any marked object, for every
-    slot order; and it finalises every unmarked non-root registered object exactly once. -/
-theorem C06_collect_respects_marks (ops : List Op) (h : WellFormed ops) (marks order : List Addr)
-    (hclosed : ∀ b x, x ∈ (final ops).ownsOf b → b ∉ marks → x ∉ marks) :
+/-- **C06, a collection respects its marked set — under sole ownership.**  In any state reached by a well-formed history,
+    consider a collection with marked set `marks`, and suppose the program meets the *sole-ownership obligation* for it
+    (`hsole`): whatever an unmarked object owns is itself unmarked — an object that the program, or a marked owner, still
+    reaches is not also owned by garbage.  (This is an obligation of the program, not something the mark phase produces:
+    marking is closed the other way — marked owner ⇒ marked pointee.  `Box_Del → del(pointee)` erases the pointee from the
+    registry whether or not its mark bit is set, GC.c `GC_Rem_Ptr`; without the obligation the statement is false, see
+    `C06_collect_marked_owned_refuted`.)  Then the collection appends to the ledger no event of any marked object, for
+    every slot order; and it finalises every unmarked non-root registered object exactly once. -/
+theorem C06_collect_respects_marks (ops : List Op) (h : WellFormed ops) (hnd : NoDtor ops) (marks order : List Addr)
+    (hsole : ∀ b x, x ∈ (final ops).ownsOf b → b ∉ marks → x ∉ marks) :
     ∃ E, (step Cfg.current (final ops) (Op.collect marks order)).log = (final ops).log ++ E ∧
       (∀ a ∈ marks, Clean a E) ∧
       (∀ e ∈ (final ops).reg, e.root = false → e.addr ∉ marks → Once e.addr E) := by
-  have hI := inv_final ops h
+  have hI := inv_final ops h hnd
   obtain ⟨_, D, E, he, hg, _, hsw, hr, _⟩ := inv_sweep hI marks order
   refine ⟨E, he.log, ?_, ?_⟩
   · intro a ha
@@ -167,22 +187,42 @@ theorem C06_collect_respects_marks (ops : List Op) (h : WellFormed ops) (marks o
       rw [this] at hs; exact Bool.noConfusion hs.2
     rcases hd' with rfl | hreach
     · exact hem ha
-    · exact (Reach.closed (P := fun x => x ∉ marks) hclosed hreach.toReach hem) ha
+    · exact (Reach.closed (P := fun x => x ∉ marks) hsole hreach.toReach hem) ha
   · intro e he' hroot hm
     apply hg.once
     apply hsw e he'
     simpa [swept, hroot] using hm
 
+/-- the statement of `C06_collect_respects_marks` without the sole-ownership obligation -/
+def C06_collect_respects_marks_unconditional_statement : Prop :=
+  ∀ (ops : List Op), WellFormed ops → NoDtor ops → ∀ (marks order : List Addr),
+    ∃ E, (step Cfg.current (final ops) (Op.collect marks order)).log = (final ops).log ++ E ∧ ∀ a ∈ marks, Clean a E
+
+/-- **the obligation is needed**: an unmarked Box 2 whose pointee 1 is also held by the program (1 is marked, e.g. from
+    the stack — a reachable state).  The collection sweeps 2, `Box_Del` does `del(1)`, and `GC_Rem_Ptr` erases and
+    finalises the *marked*, registered object 1: the ledger of the collection is `fin 2, fin 1, free 1, free 2`. -/
+theorem C06_collect_marked_owned_refuted : ¬ C06_collect_respects_marks_unconditional_statement := by
+  intro hall
+  obtain ⟨E, hlog, hclean⟩ :=
+    hall [.new 1 .std [] [1] [], .new 2 .std [1] [1, 2] []] (by decide) (by decide) [1] []
+  have h0 : (final [.new 1 .std [] [1] [], .new 2 .std [1] [1, 2] []]).log = [] := by decide
+  have h1 : (step Cfg.current (final [.new 1 .std [] [1] [], .new 2 .std [1] [1, 2] []]) (Op.collect [1] [])).log =
+      [.fin 2, .fin 1, .free 1, .free 2] := by decide
+  rw [h0, h1, List.nil_append] at hlog
+  have := (hclean 1 (by simp)).1
+  rw [← hlog] at this
+  simp at this
+
 /-- **C06, an explicit `del` finalises at once, together with what the object owns.**  In any state reached by a
     well-formed history with the collector running, `del`/`del_root` of a registered object `b` leaves `b` — and every
     registered object `x` that `b`'s destructor deletes (Box: its pointee), and so on down the chain — with exactly one
     `fin` followed by one `free` in the ledger, and unregistered. -/
-theorem C06_del_finalises_now (ops : List Op) (h : WellFormed ops) (b : Addr) (k : Kind) (hk : k ≠ .raw)
+theorem C06_del_finalises_now (ops : List Op) (h : WellFormed ops) (hnd : NoDtor ops) (b : Addr) (k : Kind) (hk : k ≠ .raw)
     (hrun : (final ops).running = true) (hb : b ∈ (final ops).regAddrs) :
     Once b (final (ops ++ [Op.del b k])).log ∧ b ∉ (final (ops ++ [Op.del b k])).regAddrs ∧
     ∀ x ∈ (final ops).ownsOf b, x ∈ (final ops).regAddrs →
       Once x (final (ops ++ [Op.del b k])).log ∧ x ∉ (final (ops ++ [Op.del b k])).regAddrs := by
-  have hI := inv_final ops h
+  have hI := inv_final ops h hnd
   have hs' : final (ops ++ [Op.del b k]) =
       gcRem (finalise (fuelFor (final ops)) Cfg.current) Cfg.current (final ops) b := by
     unfold final; rw [run_append]
@@ -195,44 +235,42 @@ theorem C06_del_finalises_now (ops : List Op) (h : WellFormed ops) (b : Addr) (k
 
 /-- **C06, `del_raw`.**  `del_raw` of a raw object the program has not deleted yet finalises and releases it at once,
     exactly once, whatever the state of the collector (running or stopped). -/
-theorem C06_del_raw_finalises_now (ops : List Op) (h : WellFormed ops) (a : Addr) (ha : a ∈ (ghost ops).rawLive) :
-    Once a (final (ops ++ [Op.del a .raw])).log := by
-  have hw : WellFormed (ops ++ [Op.del a .raw]) := by
-    unfold WellFormed
-    rw [wf_append]
-    exact ⟨h, ha, trivial⟩
-  have hI := inv_final _ hw
-  have hI0 := inv_final ops h
-  have hgh : ghost (ops ++ [Op.del a .raw]) = gstep (ghost ops) (final ops) (Op.del a .raw) := by
-    unfold ghost final; rw [grun_append]; rfl
-  have hs' : final (ops ++ [Op.del a .raw]) = finalise (fuelFor (final ops)) Cfg.current (final ops) a := by
-    unfold final; rw [run_append]; rfl
-  have hal : a ∈ (ghost (ops ++ [Op.del a .raw])).allocd := by
-    rw [hgh]; exact (hI0.loose a (Or.inl ha)).1
-  have hnr : a ∉ (ghost (ops ++ [Op.del a .raw])).rawLive := by
-    rw [hgh]; simp [gstep]
-  have hnl : a ∉ (ghost (ops ++ [Op.del a .raw])).lost := by
-    rw [hgh]; exact hI0.sep a ha
-  have hreg : a ∉ (final (ops ++ [Op.del a .raw])).regAddrs := by
-    obtain ⟨D, E, he, _⟩ := finalise_spec (fuelFor (final ops)) (final ops) a hI0.disj (mu_lt_fuelFor _)
-    rw [hs']
-    unfold St.regAddrs
-    rw [he.reg]
-    intro hc
-    exact (hI0.loose a (Or.inl ha)).2.1 (mem_regWithout_addrs.1 hc).1
-  exact hI.done a hal hreg hnr hnl
+theorem C06_del_raw_finalises_now (ops : List Op) (h : WellFormed ops) (hnd : NoDtor ops) (a : Addr)
+    (ha : a ∈ (ghost ops).rawLive) :
+    Once a (final (ops ++ [Op.del a .raw])).log :=
+  release_raw_now ops h hnd a ha _ (Or.inl rfl)
+
+/-- **C06, the `alloc_raw` / `dealloc_raw` route.**  `dealloc(destruct(a))` (= `dealloc_raw` = `dealloc_root`: one function)
+    of an object obtained from `alloc_raw`/`new_raw` that the program has not released yet finalises and releases it at
+    once, exactly once, whatever the state of the collector. -/
+theorem C06_dealloc_raw_finalises_now (ops : List Op) (h : WellFormed ops) (hnd : NoDtor ops) (a : Addr) (k : Kind)
+    (ha : a ∈ (ghost ops).rawLive) :
+    Once a (final (ops ++ [Op.dealloc a k])).log :=
+  release_raw_now ops h hnd a ha _ (Or.inr ⟨k, rfl⟩)
+
+/-- **C06, the `alloc` / `alloc_root` route.**  As `C06_exactly_once`, for an object obtained from `alloc`/`alloc_root`/
+    `alloc_raw` (constructed or not: `Op.own` is the constructor's ownership link) and left to the collector, to `del`, or
+    (raw) to `dealloc_raw`: exactly one `fin` followed by exactly one `free` after teardown. -/
+theorem C06_exactly_once_alloc (ops : List Op) (order : List Addr) (h : WellFormed ops) (hnd : NoDtor ops)
+    (hrun : ∀ op ∈ ops, op ≠ Op.stop)
+    (hraw : (ghost ops).rawLive = [])
+    (hroots : ∀ e ∈ (final ops).reg, e.root = false)
+    (a : Addr) (k : Kind) (marks ord : List Addr) (hnew : Op.alloc a k marks ord ∈ ops) :
+    Once a (final (ops ++ [Op.teardown order])).log := by
+  have hl := (running_run ops Ghost.init St.init Inv.init h hnd hrun rfl rfl).2
+  exact (C06_exactly_once_windows ops order h hnd hl hraw hroots).2 a (allocd_of_alloc ops _ _ hnew)
 
 /-- **C06, the slot order does not matter.**  In any state reached by a well-formed history with the collector running,
     two collections with the same marked set but different slot orders — owner swept before or after what it owns, in any
     arrangement — finalise exactly the same objects: the registries afterwards hold the same addresses and the ledgers are
     permutations of each other (only the order of the events differs). -/
-theorem C06_order_irrelevant (ops : List Op) (h : WellFormed ops) (hrun : (final ops).running = true)
+theorem C06_order_irrelevant (ops : List Op) (h : WellFormed ops) (hnd : NoDtor ops) (hrun : (final ops).running = true)
     (marks o1 o2 : List Addr) :
     (∀ a, a ∈ (step Cfg.current (final ops) (Op.collect marks o1)).regAddrs ↔
           a ∈ (step Cfg.current (final ops) (Op.collect marks o2)).regAddrs) ∧
     (step Cfg.current (final ops) (Op.collect marks o1)).log.Perm
       (step Cfg.current (final ops) (Op.collect marks o2)).log := by
-  have hI := inv_final ops h
+  have hI := inv_final ops h hnd
   obtain ⟨_, D1, E1, he1, hg1, hD1, hsw1, hr1, hk1⟩ := inv_sweep hI marks o1
   obtain ⟨_, D2, E2, he2, hg2, hD2, hsw2, hr2, hk2⟩ := inv_sweep hI marks o2
   -- the finalised sets coincide: each is the closure of the unmarked non-root entries under "owns a registered object"
@@ -367,7 +405,7 @@ example :
     finalises it a second time, while its first destructor is still running -/
 theorem C06_lateclear_ring_refuted :
     let ops : List Op := [.new 1 .std [] [1] [], .new 2 .std [1] [1, 2] [], .own 1 [2], .collect [] [1, 2]]
-    (run ⟨true, false⟩ St.init ops).log = [.fin 1, .fin 2, .fin 1, .free 1, .free 2, .free 1] := by
+    (run ⟨true, false, false, false⟩ St.init ops).log = [.fin 1, .fin 2, .fin 1, .free 1, .free 2, .free 1] := by
   decide
 
 /-! ### known finding F23 and the pre-fix code -/
@@ -423,7 +461,136 @@ theorem C06_prefix_refuted :
     before finalising it, an object swept *before* its owner is finalised twice -/
 theorem C06_halffix_refuted :
     let ops : List Op := [.new 1 .std [] [1] [], .new 2 .std [1] [1, 2] [], .collect [] [1, 2]]
-    (run ⟨true, false⟩ St.init ops).log = [.fin 1, .free 1, .fin 2, .fin 1, .free 1, .free 2] := by
+    (run ⟨true, false, false, false⟩ St.init ops).log = [.fin 1, .free 1, .fin 2, .fin 1, .free 1, .free 2] := by
+  decide
+
+/-! ### known finding KF-C06-dtor-alloc: a destructor that allocates
+
+  `Op.dtor a allocs` says that the destructor of `a` does `new` for each of `allocs` when it runs.  Inside the release loop
+  of a sweep such a `new` goes through `GC_Set`, and when `nitems > mitems` (after phase 1 of a teardown `mitems = 1`) it
+  runs a nested `GC_Mark; GC_Sweep` on the same collector: the pending list of the outer sweep is overwritten and then
+  released, the outer loop finds `freenum = 0` and stops.  What was still waiting on the outer list has already left the
+  registry and is never finalised; what destructors registered after phase 1 of the teardown sweep stays registered in a
+  collector that is torn down.  All theorems above therefore carry `NoDtor ops`; the statements without it follow. -/
+
+/-- a reachable state meets `NoDtor`, and a history with an allocating destructor whose object is deleted explicitly
+    (outside any sweep: the nested registration meets an empty pending list) is harmless: `del(1)` runs the destructor,
+    which allocates 11; 11 is swept by teardown -/
+example :
+    let ops : List Op := [.new 1 .std [] [1] [], .dtor 1 [⟨11, [11], []⟩], .del 1 .std]
+    WellFormed ops ∧ ¬ NoDtor ops ∧ NoDtor [Op.new 1 .std [] [1] [], .del 1 .std] ∧
+      (final (ops ++ [Op.teardown []])).log = [.fin 1, .free 1, .fin 11, .free 11] ∧
+      (final (ops ++ [Op.teardown []])).reg = [] := by
+  decide
+
+/-- the statement of `C06_exactly_once` without `NoDtor`: for every interleaving of allocations … *including objects whose
+    destructors allocate* -/
+def C06_exactly_once_dtor_alloc_statement : Prop :=
+  ∀ (ops : List Op) (order : List Addr), WellFormed ops → (∀ op ∈ ops, op ≠ Op.stop) → (ghost ops).rawLive = [] →
+    (∀ e ∈ (final ops).reg, e.root = false) →
+    ∀ (a : Addr) (k : Kind) (owned marks ord : List Addr), Op.new a k owned marks ord ∈ ops →
+      Once a (final (ops ++ [Op.teardown order])).log
+
+/-- the witness of KF-C06-dtor-alloc (corpus/kf_c06_dtor_alloc.ops): three objects whose destructors allocate one object
+    each, left to teardown -/
+def dtorAllocWitness : List Op :=
+  [.new 1 .std [] [1] [], .dtor 1 [⟨11, [11], []⟩], .new 2 .std [] [1, 2] [], .dtor 2 [⟨12, [12], []⟩],
+   .new 3 .std [] [1, 2, 3] [], .dtor 3 [⟨13, [13], []⟩]]
+
+/-- **KF-C06-dtor-alloc, teardown.**  The history is well-formed, never stops the collector, has no raw object and no
+    root.  Teardown sweeps 1, 2, 3 (`mitems = 1`).  The destructor of 1 registers 11 (`nitems = 1`, no collection); the
+    destructor of 2 registers 12 (`nitems = 2 > 1`): the nested collection finalises 11, keeps 12 (just registered, on the
+    stack), and releases the pending list.  Object 3 is never finalised (*left behind at teardown*), object 12 stays
+    registered in a collector that no longer exists.  Nothing is finalised twice. -/
+theorem C06_dtor_alloc_teardown_refuted :
+    WellFormed dtorAllocWitness ∧ (∀ op ∈ dtorAllocWitness, op ≠ Op.stop) ∧ (ghost dtorAllocWitness).rawLive = [] ∧
+      (∀ e ∈ (final dtorAllocWitness).reg, e.root = false) ∧
+      (final (dtorAllocWitness ++ [Op.teardown [1, 2, 3]])).log = [.fin 1, .free 1, .fin 2, .fin 11, .free 11, .free 2] ∧
+      (final (dtorAllocWitness ++ [Op.teardown [1, 2, 3]])).reg = [⟨12, false⟩] ∧
+      Clean 3 (final (dtorAllocWitness ++ [Op.teardown [1, 2, 3]])).log := by
+  refine ⟨by decide, by decide, by decide, by decide, by decide, by decide, ?_⟩
+  have hlog : (final (dtorAllocWitness ++ [Op.teardown [1, 2, 3]])).log =
+      [.fin 1, .free 1, .fin 2, .fin 11, .free 11, .free 2] := by decide
+  rw [hlog]
+  unfold Clean; decide
+
+/-- the model, which mirrors the code, violates the full statement -/
+theorem C06_exactly_once_dtor_alloc_refuted : ¬ C06_exactly_once_dtor_alloc_statement := by
+  intro hfull
+  obtain ⟨hw, hs, hr, ho, _, _, hc⟩ := C06_dtor_alloc_teardown_refuted
+  have := hfull dtorAllocWitness [1, 2, 3] hw hs hr ho 3 .std [] [1, 2, 3] [] (by decide)
+  exact absurd this.counts.1 (by rw [(count_eq_zero_of_clean hc).1]; decide)
+
+/-- **KF-C06-dtor-alloc, an ordinary collection.**  The same three objects unreachable at a forced or threshold collection
+    (`collect [] …`): the nested collection started from the destructor of 2 abandons 3; the later teardown does not find
+    it either (it left the registry in phase 1 of the collection that lost it). -/
+theorem C06_dtor_alloc_collect_refuted :
+    (final (dtorAllocWitness ++ [Op.collect [] [1, 2, 3], Op.teardown []])).log =
+        [.fin 1, .free 1, .fin 2, .fin 11, .free 11, .free 2, .fin 12, .free 12] ∧
+      Clean 3 (final (dtorAllocWitness ++ [Op.collect [] [1, 2, 3], Op.teardown []])).log := by
+  have hlog : (final (dtorAllocWitness ++ [Op.collect [] [1, 2, 3], Op.teardown []])).log =
+      [.fin 1, .free 1, .fin 2, .fin 11, .free 11, .free 2, .fin 12, .free 12] := by decide
+  refine ⟨hlog, ?_⟩
+  rw [hlog]
+  unfold Clean; decide
+
+/-- **what the proposed repair does on the witnesses** (`Cfg.repaired`: `GC_Set` starts no collection while a release
+    loop is running; `GC_Del` sweeps until only roots are left): every object, the ones the destructors allocated
+    included, is finalised exactly once and the registry ends empty.  (An illustration by evaluation, not a theorem about
+    all histories: the source does not contain the repair.) -/
+example :
+    (run Cfg.repaired St.init (dtorAllocWitness ++ [Op.teardown [1, 2, 3]])).log =
+        [.fin 1, .free 1, .fin 2, .free 2, .fin 3, .free 3, .fin 11, .free 11, .fin 12, .free 12, .fin 13, .free 13] ∧
+      (run Cfg.repaired St.init (dtorAllocWitness ++ [Op.teardown [1, 2, 3]])).reg = [] ∧
+      (run Cfg.repaired St.init (dtorAllocWitness ++ [Op.collect [] [1, 2, 3], Op.teardown []])).log =
+        [.fin 1, .free 1, .fin 2, .free 2, .fin 3, .free 3, .fin 11, .free 11, .fin 12, .free 12, .fin 13, .free 13] := by
+  decide
+
+/-- the statement of `C06_no_double_partial` without `NoDtor`.  It is believed to hold on this tree (the nested
+    collection loses objects, it does not finalise any twice: C reproducer and every generated history) but is *not
+    proved*: the proof of `C06_no_double_partial` goes through the exact-effect relation `Eff` (exactly the objects `D`
+    leave the tables), which a nested collection that silently drops the outer pending list does not satisfy; what is
+    missing is an invariant for collector work that may also lose and register objects. -/
+def C06_no_double_statement : Prop :=
+  ∀ (ops : List Op), WellFormed ops → ∀ a : Addr, Clean a (final ops).log ∨ Once a (final ops).log
+
+/-! ### known finding KF-C06-dealloc-registered: `dealloc` does not unregister -/
+
+/-- the statement of `C06_exactly_once_alloc` with the program allowed to release with `dealloc(destruct(·))` what it
+    obtained from `alloc`/`alloc_root` ("the corresponding `dealloc` function should be used when done", Alloc.c) -/
+def C06_dealloc_registered_statement : Prop :=
+  ∀ (a : Addr) (k : Kind) (order : List Addr),
+    Once a (final [Op.alloc a k [a] [], Op.dealloc a k, Op.teardown order]).log
+
+/-- **KF-C06-dealloc-registered.**  `x = alloc(T); construct(x); dealloc(destruct(x))`: `dealloc` frees the block and
+    leaves the entry in the registry; the teardown sweep finalises and frees the same object a second time (on the real
+    heap: the destructor runs on a freed block).  For `alloc_root`/`dealloc_root` the entry stays as a root: the next mark
+    phase traces the freed block. -/
+theorem C06_dealloc_registered_refuted : ¬ C06_dealloc_registered_statement := by
+  intro hall
+  have := (hall 1 .std []).counts.1
+  have hlog : (final [Op.alloc 1 .std [1] [], Op.dealloc 1 .std, Op.teardown []]).log =
+      [.fin 1, .free 1, .fin 1, .free 1] := by decide
+  rw [hlog] at this
+  exact absurd this (by decide)
+
+/-- the root variant: after `alloc_root; dealloc_root(destruct(x))` the released object is still a registered root -/
+theorem C06_dealloc_root_registered_refuted :
+    (final [Op.alloc 1 .root [1] [], Op.dealloc 1 .root]).log = [.fin 1, .free 1] ∧
+      (final [Op.alloc 1 .root [1] [], Op.dealloc 1 .root]).reg = [⟨1, true⟩] := by
+  decide
+
+/-- the hypotheses of `C06_exactly_once_alloc` and `C06_dealloc_raw_finalises_now` are met by reachable histories:
+    `alloc` + constructor link, left to a collection; `alloc_root` deleted with `del_root`; `alloc_raw` released with
+    `dealloc_raw(destruct(·))` -/
+example :
+    let ops : List Op := [.alloc 1 .std [1] [], .alloc 2 .std [1, 2] [], .own 2 [1], .alloc 3 .root [1, 2, 3] [],
+                          .alloc 4 .raw [] [], .collect [3] [2, 1], .del 3 .root]
+    WellFormed ops ∧ NoDtor ops ∧ (∀ op ∈ ops, op ≠ Op.stop) ∧ 4 ∈ (ghost ops).rawLive ∧
+      (ghost (ops ++ [Op.dealloc 4 .raw])).rawLive = [] ∧
+      (∀ e ∈ (final (ops ++ [Op.dealloc 4 .raw])).reg, e.root = false) ∧
+      (final (ops ++ [Op.dealloc 4 .raw, Op.teardown []])).log =
+        [.fin 2, .fin 1, .free 1, .free 2, .fin 3, .free 3, .fin 4, .free 4] := by
   decide
 
 end Cello.Life
